@@ -321,6 +321,8 @@ RunResult run(J const &plan) {
     if (s > 0) {
       double dB = ftB - ftA, dC = ftC - ftA;
       double scale = std::max(std::fabs(ftA), std::max(std::fabs(ftB), std::fabs(ftC)));
+      // (the three reports are differences of the measured projection and the remembered applied force: their rounding scales with that force)
+      scale = std::max(scale, std::max(std::fabs(tr[0].recs[s - 1].cv_fa[0]), std::fabs(tr[2].recs[s - 1].cv_fa[0])));
       if (!close_enough(dC, 2.0 * dB, 1e-9, 1e-9 * scale + 1e-11)) { res.fail("linearity", "not_linear_in_atomic_forces", at + ": with system forces 0, S, 2S the reported total force is " + fmt_double(ftA) + ", " + fmt_double(ftB) + ", " + fmt_double(ftC)); break; }
       if (!close_enough(ftD, ftB, 1e-10, 1e-10 * scale + 1e-12)) { res.fail("locality", "depends_on_foreign_atoms", at + ": " + fmt_double(ftB) + " becomes " + fmt_double(ftD) + " when forces are added on atoms outside the variable's groups"); break; }
       lin_checks++;
